@@ -49,9 +49,14 @@ func (s *Sender) Run(ctx context.Context) {
 			// TODO do backoff
 			timer := time.NewTimer(1 * time.Second)
 			for {
+				// Both are derived from the stream we hold right now: a sink left armed from an earlier failure would
+				// replace a held stream (whose callback would then never run), and a Done channel left over from a
+				// stream that was answered long ago would fire with no stream to answer.
 				if stream == nil {
 					sink = s.Sink
+					streamCancel = nil
 				} else {
+					sink = nil
 					streamCancel = stream.Ctx.Done()
 				}
 				select {
